@@ -120,3 +120,21 @@ Definition spec_case
     Nat.eqb (length fs) (length oread) &&
     forallb (fun p => rfield_eqb (fst p) (snd p)) (combine (map expected fs) oread)
   else true.
+
+(* ---- compression variables (list / count / index) ----
+   A case: the compressed fields in writing order; per field the observed
+   dimensions the field itself lives on (compressed axes of a gathered field,
+   instance dimension of a ragged field), as numbers; per field the observed
+   compression variable, as a number. *)
+Definition check_ccase_gen (lx : bool) (cs : list cfield * list (list nat) * list nat) : bool :=
+  let '(cfs, odims, ovars) := cs in
+  let '(st, xs) := write_cfields lx cfs st0 in
+  let md := map (fun p => match cf_c (fst p) with
+                          | Some c => meaning c (o_dims (fst (snd p)))
+                          | None => [] end) (combine cfs xs) in
+  let mv := map (fun x : fout * option nat => match snd x with Some v => v | None => 0%nat end) xs in
+  nat_lists_eqb (regroup md (canon dimid_eqb (concat md))) (regroup odims (canon Nat.eqb (concat odims))) &&
+  list_eqb Nat.eqb (canon Nat.eqb mv) (canon Nat.eqb ovars).
+
+Definition check_ccase := check_ccase_gen true.
+Definition check_ccase_old := check_ccase_gen false.
